@@ -160,24 +160,30 @@ Fixpoint remove_mask {A} (l : list A) (mask : list bool) : list A :=
                end
   end.
 
-(* key of an element of a slice of pointers: field 0 of the struct it points to *)
-Definition vkey (r : vrow) : Z :=
-  match r with
-  | VR (Some (_, VP z :: _)) :: _ => z
-  | VP z :: _ => z
-  | _ => 0%Z
-  end.
 Fixpoint insert_by {A} (key : A -> Z) (x : A) (l : list A) : list A :=
   match l with
   | [] => [x]
   | y :: l' => if Z.ltb (key x) (key y) then x :: l else y :: insert_by key x l'
   end.
-(* stable: equal keys keep their order (x is inserted after the elements it is not smaller than) *)
+(* stable insertion sort: equal keys keep their order (what sort.SliceStable with less = key< yields) *)
 Definition sort_by {A} (key : A -> Z) (l : list A) : list A := fold_left (fun acc x => insert_by key x acc) l [].
 
-Fixpoint find_key (rows : list vrow) (k : Z) (i : nat) : option nat :=
-  match rows with
+(* sort key of a slice element: field k of the struct the element row points to (slices of pointers) *)
+Definition vkey (k : nat) (r : vrow) : Z :=
+  match r with
+  | VR (Some (_, q)) :: _ => match nth_error q k with Some (VP z) => z | _ => 0%Z end
+  | _ => 0%Z
+  end.
+
+Definition vrow_key (r : vrow) : Z := match r with VP z :: _ => z | _ => 0%Z end.
+Fixpoint find_idx {A} (f : A -> bool) (l : list A) : option nat :=
+  match l with
   | [] => None
-  | (VP k' :: _) :: rows' => if Z.eqb k' k then Some i else find_key rows' k (S i)
-  | _ :: rows' => find_key rows' k (S i)
+  | x :: l' => if f x then Some 0 else option_map S (find_idx f l')
+  end.
+(* Map.Remove: the found entry is overwritten by the last one, the last one is dropped *)
+Definition swap_remove {A} (i : nat) (l : list A) : list A :=
+  match rev l with
+  | [] => []
+  | lst :: _ => if Nat.eqb i (length l - 1) then removelast l else upd (removelast l) i lst
   end.
